@@ -12,6 +12,8 @@ Oracle (evaluated on the implementation): byte equality of what the property obs
   * N threads converting concurrently with a 1 µs switch interval              (kind threads)
   * one forced interleaving per token of the shared re.Scanner: thread A is parked right after
     `self.match = m`, thread B runs a whole scan, A resumes                     (kind schedule)
+  * a forced interleaving at document level: thread A is parked when Survey.xml() returns (built, not
+    serialised) while thread B converts a form of every feature family           (kind schedule)
   * 3x regeneration from one survey object                                      (kind regen)
   * converting the same dict object twice                                       (kind same-object)
   * every lru_cache hit compared with the uncached function                     (kind cache-hit)
@@ -209,8 +211,14 @@ def attribute(ctx, wd, case, forms, order, i, s0, s1, a, b, d):
 # --------------------------------------------------------------------------- caches
 
 
+def _is_cached(v):
+    return callable(v) and hasattr(v, "cache_parameters") and hasattr(v, "__wrapped__") and hasattr(v, "cache_info")
+
+
 def cached_functions():
-    """Every functools.lru_cache wrapper reachable as a module attribute of pyxform."""
+    """Every functools.lru_cache wrapper reachable in pyxform: module attributes, and attributes of
+    classes defined in pyxform modules (plain functions, staticmethods, classmethods).
+    value: (cached function, [(owner, attribute name, kind)])"""
     import impl  # noqa: F401
     import pyxform.xls2xform  # noqa: F401
     import pyxform.validators.pyxform.iana_subtags.validation  # noqa: F401
@@ -220,9 +228,21 @@ def cached_functions():
         if not (mname == "pyxform" or mname.startswith("pyxform.")) or mod is None:
             continue
         for attr, v in list(vars(mod).items()):
-            if callable(v) and hasattr(v, "cache_parameters") and hasattr(v, "__wrapped__") and hasattr(v, "cache_info"):
-                key = f"{getattr(v, '__module__', mname)}.{getattr(v, '__name__', attr)}"
-                found.setdefault(key, (v, []))[1].append((mod, attr))
+            if _is_cached(v):
+                key = f"{getattr(v, '__module__', mname)}.{getattr(v, '__qualname__', attr)}"
+                found.setdefault(key, (v, []))[1].append((mod, attr, "plain"))
+            elif isinstance(v, type) and getattr(v, "__module__", "").startswith("pyxform"):
+                for cattr, cv in list(vars(v).items()):
+                    kind, fn = "plain", cv
+                    if isinstance(cv, staticmethod):
+                        kind, fn = "static", cv.__func__
+                    elif isinstance(cv, classmethod):
+                        kind, fn = "class", cv.__func__
+                    if _is_cached(fn):
+                        key = f"{v.__module__}.{v.__qualname__}.{cattr}"
+                        sites = found.setdefault(key, (fn, []))[1]
+                        if (v, cattr, kind) not in sites:
+                            sites.append((v, cattr, kind))
     return found
 
 
@@ -232,14 +252,32 @@ def clear_caches():
 
 
 def canon_value(v):
+    from xml.dom.minidom import Node
+
+    if isinstance(v, Node):
+        # a cached DOM node is shared: once some document adopts it, it has a parent
+        try:
+            text = v.toxml()
+        except Exception:  # noqa: BLE001
+            text = repr(v)
+        return {"dom": text, "attached": v.parentNode is not None}
     if isinstance(v, tuple | list):
         return [canon_value(x) for x in v]
     if isinstance(v, set | frozenset):
         return sorted(canon_value(x) for x in v)
-    if hasattr(v, "__slots__") and not isinstance(v, str):
-        return {s: canon_value(getattr(v, s, None)) for s in v.__slots__}
     if isinstance(v, str | int | float | bool | type(None)):
         return v
+    if hasattr(v, "__slots__"):
+        names = []
+        for klass in type(v).__mro__:
+            sl = getattr(klass, "__slots__", ())
+            names += [sl] if isinstance(sl, str) else list(sl)
+        names += list(getattr(v, "__dict__", {}))
+        return {"obj": type(v).__name__, "fields": {n: canon_value(getattr(v, n, None)) for n in dict.fromkeys(names) if n != "__weakref__"}}
+    if isinstance(v, dict):
+        return {str(k): canon_value(x) for k, x in v.items()}
+    if hasattr(v, "__dict__") and not callable(v):
+        return {"obj": type(v).__name__, "fields": {k: canon_value(x) for k, x in vars(v).items()}}
     return repr(v)
 
 
@@ -256,14 +294,15 @@ class CacheMonitor:
     def __enter__(self):
         for key, (fn, sites) in cached_functions().items():
             mon = self.make(key, fn)
-            for mod, attr in sites:
-                setattr(mod, attr, mon)
-                self.patched.append((mod, attr, fn))
+            for owner, attr, kind in sites:
+                orig = vars(owner)[attr]
+                setattr(owner, attr, staticmethod(mon) if kind == "static" else classmethod(mon) if kind == "class" else mon)
+                self.patched.append((owner, attr, orig))
         return self
 
     def __exit__(self, *a):
-        for mod, attr, fn in self.patched:
-            setattr(mod, attr, fn)
+        for owner, attr, orig in self.patched:
+            setattr(owner, attr, orig)
 
     def make(self, key, fn):
         raw = fn.__wrapped__
@@ -414,6 +453,90 @@ class ForcedInterleaving:
             self.stop = True
             self.req.set()
             b.join(timeout=5)
+
+
+class BuildSerialiseInterleaving:
+    """
+    Thread A (the caller of `run`) is parked at the moment `Survey.xml()` returns — its document is
+    built but not yet serialised — while thread B converts every form of `others`, whole conversions;
+    then A resumes and writes its document out.  Anything a conversion shares with another one through
+    the process (a cached DOM node, a module-level table, a default argument) and that B's conversions
+    touch shows as a difference in A's text.  sys.monitoring PY_RETURN on the code object of Survey.xml.
+    """
+
+    def __init__(self, others):
+        import impl  # noqa: F401
+        from pyxform.survey import Survey
+
+        self.code = Survey.xml.__code__
+        self.others = others
+        self.b_results = []
+        self.parks = 0
+        self.a_ident = None
+        self.b_error = None
+
+    def _b(self):
+        try:
+            self.b_results = [c14_impl.observe(f) for f in self.others]
+        except BaseException as e:  # noqa: BLE001
+            self.b_error = e
+
+    def _ret(self, code, offset, retval):
+        if threading.get_ident() == self.a_ident and self.parks == 0:
+            self.parks += 1
+            b = threading.Thread(target=self._b)
+            b.start()
+            b.join()
+
+    def run(self, fn):
+        mon = sys.monitoring
+        tool = mon.DEBUGGER_ID
+        try:
+            mon.use_tool_id(tool, "pyxv-c14-bs")
+        except ValueError as e:
+            raise vcore.Infra(f"sys.monitoring tool id in use: {e}") from e
+        self.a_ident = threading.get_ident()
+        try:
+            mon.register_callback(tool, mon.events.PY_RETURN, self._ret)
+            mon.set_local_events(tool, self.code, mon.events.PY_RETURN)
+            return fn()
+        finally:
+            mon.set_local_events(tool, self.code, 0)
+            mon.register_callback(tool, mon.events.PY_RETURN, None)
+            mon.free_tool_id(tool)
+
+
+def phase_build_serialise(ctx, cases, seq):
+    """One representative per feature family as thread A, against the representatives of all families as thread B."""
+    reps = {}
+    for i, c in enumerate(cases):
+        if seq[i][0] == "ok" and c["feats"] and c["feats"][0] not in reps:
+            reps[c["feats"][0]] = i
+    idx = list(reps.values())
+    others_idx = [i for i in idx if len(cases[i]["form"]["survey"]) <= 60]
+    others = [cases[i]["form"] for i in others_idx]
+    for i in idx:
+        clear_caches()
+        bs = BuildSerialiseInterleaving(others)
+        got = bs.run(lambda: c14_impl.observe(cases[i]["form"]))
+        if bs.b_error is not None:
+            raise vcore.Infra(f"thread B crashed: {bs.b_error!r}")
+        ctx.count("build_serialise:parks", bs.parks)
+        ctx.count("build_serialise:b_conversions", len(bs.b_results))
+        d = diff_fields(seq[i], got)
+        if d:
+            ctx.fail(Failure("schedule", f"thread parked between Survey.xml() and serialisation while another thread converted "
+                             f"{len(others)} forms: its result differs from the sequential one: " + describe(seq[i], got),
+                             {"kind": "build-serialise", "form": cases[i]["form"], "others": others},
+                             extra={"diff": d, "feats": cases[i]["feats"]}))
+        for j, r in zip(others_idx, bs.b_results):
+            d = diff_fields(seq[j], r)
+            if d:
+                ctx.fail(Failure("schedule", "conversion running while another thread is parked between Survey.xml() and "
+                                 "serialisation differs from the sequential one: " + describe(seq[j], r),
+                                 {"kind": "build-serialise", "form": cases[i]["form"], "others": others},
+                                 extra={"diff": d, "feats": cases[j]["feats"]}))
+    clear_caches()
 
 
 def shared_scanner():
@@ -750,7 +873,7 @@ def explore(ctx, factor, bs):
     old_tmp = tempfile.tempdir
     tempfile.tempdir = str(private_tmp)
     try:
-        n = ctx.pick(64, 240) * factor
+        n = ctx.pick(66, 240) * factor
         cases = c14_gen.batch(ctx.rng, n, big=not ctx.quick())
         ref = phase_seeds(ctx, wd, cases, ctx.pick(8, 64), ctx.pick(8, 32))
         t0 = timed(ctx, "seeds", t0)
@@ -780,6 +903,8 @@ def explore(ctx, factor, bs):
         t0 = timed(ctx, "threads", t0)
         phase_schedule(ctx, cases, seq)
         t0 = timed(ctx, "schedule", t0)
+        phase_build_serialise(ctx, cases, seq)
+        t0 = timed(ctx, "build_serialise", t0)
         for i in ok_idx:
             phase_regen(ctx, cases[i], seq[i])
         for c in cases:
@@ -842,6 +967,10 @@ def replay(ctx, payload, bs):
             else:
                 SCHED_TEXTS.insert(0, case["text"])
                 phase_schedule(ctx, [], [])
+        elif kind == "build-serialise":
+            forms = [case["form"], *case["others"]]
+            cs = [{"form": f, "feats": [f"f{k}"]} for k, f in enumerate(forms)]
+            phase_build_serialise(ctx, cs, [c14_impl.observe(f) for f in forms])
         elif kind == "regen":
             phase_regen(ctx, {"form": case["form"], "feats": []}, None)
         elif kind == "same-object":
